@@ -254,6 +254,13 @@ def spec_distributions():
         dist("normal_vbase_log", "Normal", "vbase_log", {"loc": P("vl_loc", [0.2, 0.0, 0.1], REAL), "scale": P("vl_scale", [2.0, 1.0, 1.5])}),
         {"id": "v2", "type": "ViewParameter", "parameter": "vbase", "indices": "2:"},
         dist("gamma_v2", "Gamma", "v2", {"concentration": P("g2_conc", [2.5]), "rate": P("g2_rate", [1.5])}),
+        # a parametric transform whose parameters are DERIVED parameters (a view and a transformed parameter),
+        # as the CLI writes the birth-death origin (loc = tree.root_height)
+        {"id": "affine2", "type": "TransformedParameter", "transform": "torch.distributions.AffineTransform",
+         "parameters": {"loc": "v2", "scale": exp_of("af2_scale", P("af2_scale_u", [0.3], REAL))},
+         "x": P("af2_x", [0.2, -0.4, 0.9], REAL)},
+        dist("normal_affine2", "Normal", "affine2", {"loc": P("a2_loc", [0.0, 0.5, 1.0], REAL),
+                                                     "scale": P("a2_scale", [2.0, 2.5, 3.0])}),
         {"id": "gmrf_y", "type": "GMRF", "x": "y2", "precision": "g_rate"},
         {"id": "gmrfcov", "type": "GMRFCovariate", "field": P("cov_field", [1.0, 2.0, 3.0], REAL),
          "precision": P("cov_prec", [0.5]), "covariates": P("cov_z", [[1.0, 2.0], [3.0, 4.0], [5.0, 6.0]], REAL),
@@ -262,7 +269,7 @@ def spec_distributions():
         joint("joint", ["mvn", "bridge", "bridge2", "mix", "normal_cat", "gamma_on_cat", "cat_exp",
                         "normal_affine", "affine", "detnorm", "gmrf_y", "gmrfcov", "gmrfint",
                         "lognormal_nested", "gamma_view", "e1", "lognormal_vbase", "normal_vbase_log", "vbase_log",
-                        "gamma_v2"]),
+                        "gamma_v2", "normal_affine2", "affine2", "af2_scale"]),
     ])
 
 
@@ -654,6 +661,16 @@ def extract(spec, table, cls_names, flag_names):
     W.sample_slot = {W.oindex[s[0]]: k for k, s in enumerate(slot_order) if s[1] == "m:sample"}
     W.unevaluable = {W.sindex[(i, sn)] for (i, sn, _) in dropped_ids}
     W.conservative = [W.sindex[s] for s in conservative]
+    # assignment THROUGH a transformed parameter evaluates transform.inv, which reads the transform's own
+    # parameters; when those are cached (derived) parameters the read refreshes their caches — a read the
+    # listener-graph model does not describe.  Such objects are updated through their leaves only.
+    from torchtree.core.parameter import AbstractParameter as _AP, Parameter as _P, TransformedParameter as _TP
+    W.no_set_through = set()
+    for k_, v_ in dic.items():
+        if isinstance(v_, _TP):
+            tp_params = [a for a in vars(v_.transform).values() if isinstance(a, _AP) and type(a) is not _P]
+            if tp_params:
+                W.no_set_through.add(k_)
     W.base_values = {k: dic[k].tensor.detach().tolist() for k, v in dic.items() if kind_of(v) == "KLeaf"}
     W.leaf_ids = sorted(k for k, v in dic.items() if kind_of(v) == "KLeaf")
     W.domains = leaf_domains(spec["objects"])
@@ -1015,9 +1032,11 @@ def gen_history(W, rng, length, real):
         return [l for t in W.targets[i] for l in under(t)]
     # only leaves that the registry knows by id can be given to a freshly built copy
     params = [i for i in range(n) if W.obj_kind[i] != "KOther"
-              and all(W.obj_names[l] in named for l in under(i))]
+              and all(W.obj_names[l] in named for l in under(i))
+              and W.obj_names[i] not in getattr(W, "no_set_through", ())]
     leaves = [i for i in params if W.obj_kind[i] == "KLeaf"]
-    composite = [i for i in params if W.obj_kind[i] != "KLeaf"]
+    composite = [i for i in params if W.obj_kind[i] != "KLeaf"
+                 and W.obj_names[i] not in getattr(W, "no_set_through", ())]
     ridx = {id(o): i for i, o in enumerate(real.objs)}
     samplers = [i for i in range(n) if isinstance(real.objs[i], DistributionModel)
                 and hasattr(real.objs[i], "x") and ridx.get(id(real.objs[i].x)) in params
@@ -1294,7 +1313,8 @@ def updatable(W):
             return [i]
         return [l for t in W.targets[i] for l in under(t)]
     return [i for i in range(len(W.obj_ids)) if W.obj_kind[i] != "KOther" and under(i)
-            and all(W.obj_names[l] in named for l in under(i))], under
+            and all(W.obj_names[l] in named for l in under(i))
+            and W.obj_names[i] not in getattr(W, "no_set_through", ())], under
 
 
 def export_ops(W, ops):
